@@ -75,6 +75,20 @@ int main(void) {
 		else if (!strcmp(cmd, "own")) { sscanf(args, "%d", &hid); p_semaphore_take_ownership(sem[hid]); say("ok"); }
 		else if (!strcmp(cmd, "free")) { sscanf(args, "%d", &hid); p_semaphore_free(sem[hid]); sem[hid] = NULL; say("ok"); }
 		else if (!strcmp(cmd, "acq_bg") || !strcmp(cmd, "lock_bg")) { Bg *b = calloc(1, sizeof *b); pthread_t t; sscanf(args, "%d %31s", &b->hid, b->tag); b->kind = cmd[0] == 'a' ? 0 : 1; pthread_create(&t, NULL, bg_fn, b); pthread_detach(t); say("ok"); }
+		else if (!strcmp(cmd, "churn")) {     /* churn <name> <iters> <ownpct>: open(OPEN,1) / [take_ownership] / acquire / release / free in a loop */
+			int iters, ownpct, i, fails = 0; unsigned x = (unsigned)getpid() * 2654435761u;
+			if (sscanf(args, "%127s %d %d", name, &iters, &ownpct) != 3) { say("err"); continue; }
+			for (i = 0; i < iters; i++) {
+				PSemaphore *sm = p_semaphore_new(name, 1, P_SEM_ACCESS_OPEN, NULL);
+				if (!sm) { fails++; continue; }              /* the name vanished between the two sem_open calls: allowed to fail */
+				x = x * 1103515245u + 12345u;
+				if ((int)((x >> 16) % 100) < ownpct) p_semaphore_take_ownership(sm);
+				if (!p_semaphore_acquire(sm, NULL)) { say("fail acquire"); break; }
+				p_semaphore_release(sm, NULL);
+				p_semaphore_free(sm);
+			}
+			if (i == iters) say("ok %d %d", iters, fails);
+		}
 		else if (!strcmp(cmd, "kexcl")) {      /* kexcl <hid> <threads> <iters> <k> <sharedfile> */
 			char path[128]; int T, i; pthread_t th[32]; KArg g;
 			if (sscanf(args, "%d %d %d %d %127s", &hid, &T, &a1, &a2, path) != 5 || T > 32) { say("err"); continue; }
